@@ -18,6 +18,10 @@ class C16(PureCheck):
             "word longer than the line")
     exhaustive = {"quick": False, "thorough": False}
 
+    def design_runs(self, tier):
+        cfg = ("SPECIFICATION Spec\nCONSTANT MaxRuns = 2\nCONSTANT MaxLen = %d\nINVARIANT LinesplitOk\nCHECK_DEADLOCK FALSE\n" % (2 if tier == "quick" else 3))
+        return [dict(module="MC_StrMethods", cfg=cfg, workers=8, timeout=3000)]
+
     def inputs(self, tier, rng):
         if tier == "thorough":
             pool = [l for k, l in enumerate(layouts(3, 3, alphabet=ALPHA, atts=ATTS)) if len(l) < 3 or k % 16 == 0]
